@@ -515,6 +515,15 @@ func (b *builder) processFunction(root *functionNode, props *builderProp) (query
 				return nil, err
 			}
 			inp = argQuery
+		} else if root.FuncName == "boolean" {
+			return nil, errors.New("xpath: boolean function must have one parameter")
+		} else {
+			// string() and number() default to the context node.
+			argQuery, err := b.processNode(newAxisNode("self", allNode, "", "", "", nil), flagsEnum.None, props)
+			if err != nil {
+				return nil, err
+			}
+			inp = argQuery
 		}
 		switch root.FuncName {
 		case "boolean":
